@@ -1,14 +1,16 @@
 #!/usr/bin/env python3
 """lib/seedtable.py : markdown table of seeded/*/meta.json (id, what it needs, first verdict, verdict now)."""
 import json, glob, os, re
+def txt(v):
+    return v if isinstance(v, str) else json.dumps(v)
 rows = []
 for p in sorted(glob.glob("/verif/seeded/*/meta.json")):
     d = os.path.basename(os.path.dirname(p))
     m = json.load(open(p))
-    need = re.sub(r"\s+", " ", m.get("needs_to_manifest", ""))[:230]
-    what = re.sub(r"\s+", " ", m.get("summary", ""))[:170]
-    first = re.sub(r"\s+", " ", m.get("detected_by", ""))[:200]
-    now = re.sub(r"\s+", " ", m.get("detected_by_now", m.get("status_now", "")))[:200]
+    need = re.sub(r"\s+", " ", txt(m.get("needs_to_manifest", "")))[:230]
+    what = re.sub(r"\s+", " ", txt(m.get("summary", "")))[:170]
+    first = re.sub(r"\s+", " ", txt(m.get("detected_by", "")))[:200]
+    now = re.sub(r"\s+", " ", txt(m.get("detected_by_now", m.get("status_now", ""))))[:200]
     rows.append("| %s | %s — needs: %s | %s | %s |" % (d, what.replace("|", "/"), need.replace("|", "/"), first.replace("|", "/"), (now or "same").replace("|", "/")))
 print("| id | change (needs …) | first | now |\n|----|------------------|-------|-----|")
 print("\n".join(rows))
